@@ -163,11 +163,11 @@ CHECKS = {
         text='MIR symbolic execution of every method of BaseTransaction as one step from an arbitrary transaction state (ephemeral memtables for this and another keyspace, symbolic private counter): z3 decides that writes append exactly one entry '
              '(caller\'s key/value, kind, seqno = counter) to this keyspace\'s ephemeral memtable and increase the counter, with no effect outside; that point reads consult the own entry first (SeqNo::MAX, tombstone -> absent) and otherwise the tree at the '
              'snapshot instant; that scans hand the tree this keyspace\'s ephemeral memtable bounded by the current counter; that fetch_update / update_fetch / take apply f once to get() and write / return as documented; that commit submits one batch '
-             'holding the newest entry of every key (3 entries, symbolic key equalities) with the transaction\'s durability; that rollback has no effect; and that the single-writer database takes its mutex before opening the snapshot and releases it after the commit. '
+             'holding the newest entry of every key (2+2 entries in the quick tier; 3+2, a run of 4 in one keyspace, and three keyspaces in the thorough tier; symbolic key equalities) with the transaction\'s durability; that rollback has no effect; and that the single-writer database takes its mutex before opening the snapshot and releases it after the commit. '
              'Counterexamples are replayed natively against an overlay-map model of transactions (36 programs x endings on both databases, reads from outside before/after, reopen) and a two-thread read-modify-write race.',
         design_ref='DESIGN.md §5 C08',
         note='Trusted: E2 for lsm_tree::Memtable (highest seqno of a key wins; iteration by key then seqno descending; tree scans merge the ephemeral memtable up to the bound), counter starts at 2^63. '
-             'Outside: schedules of competing single-writer transactions finer than the mutex, more than 3 entries in the commit loop, lsm-tree merge internals.',
+             'Outside: schedules of competing single-writer transactions finer than the mutex, more than 4 entries per keyspace / 5 in total in the commit loop, lsm-tree merge internals.',
         technique='MIR symbolic execution (one inductive step per method from an arbitrary state) + z3; native overlay-model replay',
     ),
     'C10': dict(
